@@ -25,7 +25,8 @@ ASSUMPTIONS = ["CPython ast parser", "absint.py transfer functions (bytes concat
 
 def run(chk, program, tier):
     for r, t in (('FP-LEN', 'frame length 1..8'), ('FP-HDR', 'header bytes written'), ('FP-COUNT', 'payload partition exact'), ('FP-SEQ', 'sequence counter advances mod 8'),
-                 ('FP-HDR-DEC', 'decoder header extraction matches'), ('FP-STRIP', 'decoder strips 2 / 1 header bytes'), ('FP-TYPE', 'is_fast per PGN group == database')):
+                 ('FP-HDR-DEC', 'decoder header extraction matches'), ('FP-STRIP', 'decoder strips 2 / 1 header bytes'), ('FP-TYPE', 'is_fast per PGN group == database'), ('RA-COUNT', 'completion counts exactly the stored payload bytes'), ('RA-DONE', 'delivered when stored >= announced, not before'),
+                 ('RA-ORDER', 'frames concatenated in counter order'), ('RA-TRUNC', 'payload cut to the announced length')):
         chk.rule(r, t)
     fn = program.fn('encoder', 'NMEA2000Encoder._encode_fast_message')
     init = program.fn('encoder', 'NMEA2000Encoder.__init__')
@@ -89,6 +90,9 @@ def run(chk, program, tier):
     n = R.fp_type(chk, program)
     chk.floor('is_fast_functions', n, 270)
     same_isfast(chk, program)
+    from .c16 import _Sub
+    from .. import rules_decoder as RD
+    RD.reassembly(_Sub(chk, {'RA-COUNT', 'RA-DONE', 'RA-ORDER', 'RA-TRUNC'}), program)
 
 def _c(chk, seen, ok, rule, inst, fn, expected, found):
     chk.check(ok, rule, f"_encode_fast_message@{inst}", file=ENC, line=fn.lineno, func='_encode_fast_message', expected=expected, found=found)
